@@ -108,6 +108,27 @@ PROPS = {
             "C09: estimator contents are modelled as lists of sample ids (which draws are inside), not their numeric values; that both estimators (two running-variance pairs / deque with background_split) realise exactly these contents is checked through their counts on every draw",
         ],
     },
+    "C16": {
+        "gen": ["Schema"],
+        "thm_module": "NutsModel.Thm.C16",
+        "namespace": "NutsModel.C16",
+        "theorems": ["preset_flat_some", "names_nodup_dec", "names_nodup", "lookup_own", "getAll_names_aligned",
+                     "optional_known_dec", "nonevent_optional", "nonevent_always_or_never", "divergence_fields_dec",
+                     "event_fields_iff_event"],
+        "harness": "C16",
+        "level": "proof",
+        "rule": ("all six presets x store_* flag combinations (all off, all on, random) x dimensions {0,1,2,3,17} x fault regimes (none, "
+                 "periodic recoverable errors, periodic NaN log-density) -- short chains with warmup so that transformation updates and "
+                 "divergences occur; (a) the schema reported by Settings::stat_names/types/dims/event_dims is compared field by field with "
+                 "the model's flattening of the GENERATED struct schemas; (b) every draw's Storable::get_all is compared with it: names "
+                 "and order, value type, scalar/vector, length = product of declared dims, presence of every optional statistic vs the "
+                 "model's presence rule. Direct oracle: duplicate names, type/shape/event violations, draw counter +1, chain constant, "
+                 "non-event statistic sometimes-present. distinct_nontrivial = chains with >= 1 divergent draw and >= 2 transformation updates."),
+        "trusted": [
+            "C16: the per-struct field lists are re-extracted from the Rust sources on every run (tools/rs2lean.py gen_schema); the model of the derive macro (field order, first-match lookup) and the per-preset type composition (Model/Stats.lean) are hand-written and tied by the schema/row correspondence",
+            "C16: presence rules (Model/Stats.lean expectedPresent) are hand-transcribed from extract_stats / DivergenceStats::from and tied per draw; low-rank `inner.is_some()` is not observable, so mass_matrix_eigvals presence is accepted either way when an update with store_mass_matrix is reported",
+        ],
+    },
     "C17": {
         "gen": [],
         "thm_module": "NutsModel.Thm.C17",
